@@ -349,27 +349,43 @@ func cmdC19Worker(args []string) error {
 			for u := j.From; u < j.To; u++ {
 				n++
 				var o c19Obs
-				switch j.Kind {
-				case "direct":
-					o = processPAC(img, key, true)
-				case "ap", "aplog":
-					o = presentInTicket(img, key, r, fmt.Sprintf("%d-%d-%d", os.Getpid(), j.ID, n), j.Kind == "aplog")
-				case "flip":
-					m := append([]byte{}, img...)
-					m[u/8] ^= 0x80 >> uint(u%8)
-					o = processPAC(m, key, false)
-					o.Err = ""
-				case "kflip":
-					k2 := append([]byte{}, kv...)
-					k2[u/8] ^= 0x80 >> uint(u%8)
-					o = processPAC(img, types.EncryptionKey{KeyType: j.Vet, KeyValue: k2}, false)
-					o.Err = ""
-				case "sids":
-					o = groupSIDsOf(j.VI)
-				case "ping":
-					o.O = "pong"
-				default:
-					return fmt.Errorf("unknown job kind %q", j.Kind)
+				done := make(chan error, 1)
+				go func() {
+					var ferr error
+					switch j.Kind {
+					case "direct":
+						o = processPAC(img, key, true)
+					case "ap", "aplog":
+						o = presentInTicket(img, key, r, fmt.Sprintf("%d-%d-%d", os.Getpid(), j.ID, n), j.Kind == "aplog")
+					case "flip":
+						m := append([]byte{}, img...)
+						m[u/8] ^= 0x80 >> uint(u%8)
+						o = processPAC(m, key, false)
+						o.Err = ""
+					case "kflip":
+						k2 := append([]byte{}, kv...)
+						k2[u/8] ^= 0x80 >> uint(u%8)
+						o = processPAC(img, types.EncryptionKey{KeyType: j.Vet, KeyValue: k2}, false)
+						o.Err = ""
+					case "sids":
+						o = groupSIDsOf(j.VI)
+					case "ping":
+						o.O = "pong"
+					default:
+						ferr = fmt.Errorf("unknown job kind %q", j.Kind)
+					}
+					done <- ferr
+				}()
+				select {
+				case ferr := <-done:
+					if ferr != nil {
+						return ferr
+					}
+				case <-time.After(30 * time.Second):
+					// the call does not return: that is the observation for this unit; the goroutine cannot be stopped, so the worker
+					// ends here and the parent starts another one for the units that are left
+					put(c19Obs{U: u, O: "crash", Err: "the call did not return within 30 s"})
+					os.Exit(0)
 				}
 				o.U = u
 				put(o)
